@@ -269,6 +269,9 @@ def hist : P String := do
   let steps ← P.rep (do let a ← P.nat; let o ← P.nat; pure (a, o)) n
   P.bar
   let outs ← P.rep (do let al ← qsN S; let be ← xsN S; pure (al, be)) n
+  P.bar
+  let np ← P.nat
+  let pobs ← qsN np
   P.eof
   let m : POMDP := { S := S, A := A, O := O,
                      T := fun s a s1 => T.getD (a * S * S + s * S + s1) 0,
@@ -297,6 +300,23 @@ def hist : P String := do
         else v
       go (k + 1) alpha' rest v
   let v := go 1 b0 (steps.zip outs) v
+  -- the model's own P(o_t | b_{t-1}, a_t) along the history (theorems `obsProbB_eq_probO`, `seqProb_eq_likelihood`, `forward_sum_eq_seqProb`):
+  -- each is Σα_t / Σα_{t-1}, and their product is the likelihood of the observation sequence Σα_n
+  let v := if np == 0 then v else Id.run do
+    let mut v := v
+    let mut alpha : Array Rat := b0
+    let mut prod : Rat := 1
+    let cP := "SparseModel::getObservationProbability(b,o,a)/sparse"
+    for ((a, o), p) in steps.zip pobs.toList do
+      let prev := sumTo S (arrVec alpha)
+      let spec := unnormG mm (arrVec alpha) a o
+      alpha := ((List.range S).map spec).toArray
+      let cur := sumTo S spec
+      prod := prod * p
+      v := fIf v (prev > 0 && !(relClose (cur / prev) p)) (fun _ => s!"{cP} prob_o_mismatch on history impl={ratStr p} spec={ratStr (cur / prev)}")
+    let lik := sumTo S (arrVec alpha)
+    v := fIf v (pobs.size == n && !(relClose lik prod)) (fun _ => s!"{cP} likelihood_mismatch product={ratStr prod} likelihood={ratStr lik}")
+    return v
   return v.render
 
 /-- `inplace fn rep exact S O o | T_a | Ob_a | in | out | inplace` : a pointer overload called with `bRet == &in`.
